@@ -1276,15 +1276,21 @@ def bs_lookback_delta(
 
     See :func:`pfhedge.nn.BSLookbackOption.delta` for details.
     """
-    # TODO(simaki): Calculate analytically
-    return autogreek.delta(
-        bs_lookback_price,
-        log_moneyness=log_moneyness,
-        max_log_moneyness=max_log_moneyness,
-        time_to_maturity=time_to_maturity,
-        volatility=volatility,
-        strike=strike,
+    # d(price)/d(spot) with the running maximum held fixed, using
+    # v * sqrt(t) * d1(x) = x + v^2 t / 2 and S npdf(d1) = K npdf(d2).
+    # Unlike the derivative taken by autograd it is finite at t = 0 and v = 0.
+    s, m, t, v = map(
+        torch.as_tensor,
+        (log_moneyness, max_log_moneyness, time_to_maturity, volatility),
     )
+    w = v * t.sqrt()
+    d1_value = d1(s, t, v)
+    m1 = d1(s - m, t, v)
+    # when max < strike
+    delta_0 = ncdf(d1_value) * (2 + s + w.square() / 2) + w * npdf(d1_value)
+    # when max >= strike
+    delta_1 = ncdf(m1) * (2 + s - m + w.square() / 2) + w * npdf(m1)
+    return torch.where(m < 0, delta_0, delta_1)
 
 
 def bs_lookback_gamma(
@@ -1298,15 +1304,18 @@ def bs_lookback_gamma(
 
     See :func:`pfhedge.nn.BSLookbackOption.gamma` for details.
     """
-    # TODO(simaki): Calculate analytically
-    return autogreek.gamma(
-        bs_lookback_price,
-        log_moneyness=log_moneyness,
-        max_log_moneyness=max_log_moneyness,
-        time_to_maturity=time_to_maturity,
-        volatility=volatility,
-        strike=strike,
+    # d(delta)/d(spot) of the closed form in bs_lookback_delta; 0 / 0 at t = 0 or v = 0 is 0
+    s, m, t, v = map(
+        torch.as_tensor,
+        (log_moneyness, max_log_moneyness, time_to_maturity, volatility),
     )
+    w = v * t.sqrt()
+    spot = s.exp() * strike
+    d1_value = d1(s, t, v)
+    m1 = d1(s - m, t, v)
+    gamma_0 = (2 * _div_0by0(npdf(d1_value), w) + ncdf(d1_value)) / spot
+    gamma_1 = (2 * _div_0by0(npdf(m1), w) + ncdf(m1)) / spot
+    return torch.where(m < 0, gamma_0, gamma_1)
 
 
 def bs_lookback_vega(
